@@ -359,7 +359,11 @@ func scanIndexFile(ctx context.Context, basePath string, fileNum uint32, buckets
 	var pos int64
 	var i int
 	for {
-		if _, err = file.ReadAt(sizeBuffer, pos); err != nil {
+		if n, err := file.ReadAt(sizeBuffer, pos); err != nil {
+			if err == io.EOF && n != 0 {
+				// ReadAt reports a partially read size prefix as EOF.
+				err = io.ErrUnexpectedEOF
+			}
 			if err == io.EOF {
 				// Finished reading entire index.
 				break
